@@ -4,7 +4,7 @@ from ..main import k_suite, Violation, parse_mismatch, Trace
 from .. import gen, core, overlap
 
 LEAN_MODULES = ["Shm.Props.C15"]
-GEN_TABLES = ["AttrTable.lean"]
+GEN_TABLES = ["ClassTable.lean"]
 LEVEL = "proof"
 OPS = {"create", "copy", "destroy", "setattr", "getattr", "findinit", "find", "findfinal", "objsize", "probe"}
 RULE = ("K15-processes: 2 or 3 real processes (p11drv -i, one per library instance) on one token directory, driven by a coordinator that interleaves their calls at call "
